@@ -103,57 +103,66 @@ Record jstate := mkJ {
   j_indent : option nat;         (* indent *)
   j_had : bool;                  (* had_standalone_comment *)
   j_prev : nat;                  (* prev_newlines *)
-  j_out : list text              (* result, newest first *)
+  j_out : list text;             (* result, newest first *)
+  j_has_label : bool;            (* line_has_label *)
+  j_has_code : bool;             (* line_has_code *)
+  j_had_label : bool             (* had_label_line: the previous non-empty line held labels (and comments) but no code *)
 }.
 
-Definition j_init : jstate := mkJ [] None false 0 [].
+Definition j_init : jstate := mkJ [] None false 0 [] false false false.
 
 (* the `if (!ignore && str.contains('\n')) || idx == num_chunks - 1 { ... }` body *)
 Definition flush_line (o : options) (st : jstate) : jstate :=
   let line := j_line st in
   let lm := o_label_margin o in
   let col := lm + o_code_margin o in
-  let '(line', had', prev', should_add) :=
+  let '(line', had', prev', should_add, had_label') :=
     if all_ws line then
-      let add := negb (j_had st) && (j_prev st =? 0) in
-      (line, j_had st, (if add then S (j_prev st) else j_prev st), add)
-    else if col <? byte_len line then
-      let '(label_code, comment) := split_floor line col in
-      if all_ws label_code then (pad_right [] lm ++ comment, true, 0, true)
-      else (line, false, 0, true)
-    else (line, false, 0, true) in
+      let add := negb (j_had st) && negb (j_had_label st) && (j_prev st =? 0) in
+      (line, j_had st, (if add then S (j_prev st) else j_prev st), add, j_had_label st)
+    else
+      let hl := j_has_label st && negb (j_has_code st) in
+      if col <? byte_len line then
+        let '(label_code, comment) := split_floor line col in
+        if all_ws label_code then (pad_right [] lm ++ comment, true, 0, true, hl)
+        else (line, false, 0, true, hl)
+      else (line, false, 0, true, hl) in
   let ind := match j_indent st with Some i => i | None => 0 end in
   mkJ [] None had' prev'
-      (if should_add then trim_end (pad_right [] ind ++ line') :: j_out st else j_out st).
+      (if should_add then trim_end (pad_right [] ind ++ line') :: j_out st else j_out st)
+      false false had_label'.
+
+(* the state with a new pending line (and the per-line flags) *)
+Definition with_line (st : jstate) (line : text) (has_label has_code : bool) : jstate :=
+  mkJ line (j_indent st) (j_had st) (j_prev st) (j_out st) has_label has_code (j_had_label st).
 
 (* one piece `str` of `chunk.str.split_inclusive('\n')`;
    is_eol: the NEXT chunk's str is exactly "\n", or there is no next chunk; last: idx == num_chunks - 1 *)
 Definition join_piece (o : options) (ty : option chunk_type) (is_eol last : bool) (st : jstate) (str : text) : jstate :=
   let line := j_line st in
   let lm := o_label_margin o in
-  let '(line', ignore) :=
+  let '(st', ignore) :=
     match ty with
     | Some Label =>
-        if lm <? byte_len line then (line ++ str ++ [SP], false)
+        if lm <? byte_len line then (with_line st (line ++ str ++ [SP]) true (j_has_code st), false)
         else match o_label_alignment o with
-             | ALeft => (line ++ pad_right (str ++ [SP]) lm, false)
-             | ARight => (line ++ pad_left (str ++ [SP]) lm, false)
+             | ALeft => (with_line st (line ++ pad_right (str ++ [SP]) lm) true (j_has_code st), false)
+             | ARight => (with_line st (line ++ pad_left (str ++ [SP]) lm) true (j_has_code st), false)
              end
     | None =>
         if text_eqb str [NL] && negb (match line with [] => true | _ => false end) && (byte_len line <=? lm)
-        then (line, true)
-        else (pad_right line lm ++ str, false)
+        then (st, true)
+        else (with_line st (pad_right line lm ++ str) (j_has_label st) (j_has_code st || negb (all_ws str)), false)
     | Some Comment =>
-        if is_eol then (pad_right line (lm + o_code_margin o) ++ str, false)
-        else (pad_right line lm ++ str ++ [SP], false)
+        if is_eol then (with_line st (pad_right line (lm + o_code_margin o) ++ str) (j_has_label st) (j_has_code st), false)
+        else (with_line st (pad_right line lm ++ str ++ [SP]) (j_has_label st) (j_has_code st), false)
     end in
-  let st' := mkJ line' (j_indent st) (j_had st) (j_prev st) (j_out st) in
   if (negb ignore && contains_nl str) || last then flush_line o st' else st'.
 
 Definition set_indent (st : jstate) (i : nat) : jstate :=
   match j_indent st with
   | Some _ => st
-  | None => mkJ (j_line st) (Some i) (j_had st) (j_prev st) (j_out st)
+  | None => mkJ (j_line st) (Some i) (j_had st) (j_prev st) (j_out st) (j_has_label st) (j_has_code st) (j_had_label st)
   end.
 
 (* a chunk together with what the loop looks ahead for *)
